@@ -83,6 +83,14 @@ CHECKS = {
              "attribute values must agree between the running instance, a restarted instance and the decoder; golden file and SQLite tokens from the pinned "
              "commit must open with their PINs, return exactly the recorded values and stay modifiable.",
         note="Histories on the file store (SQLite through its golden fixture); fs-fault injection not included yet; trusted base: storefmt.py, refsh."),
+    "C02": dict(
+        category="model_checking", design_ref="DESIGN.md 3/C02",
+        technique="explicit-state BFS over (origin x key kind x requested flags) roots and set/copy/concatenate histories on the real library; in every state every secret attribute is read in every template/buffer shape and the key is wrapped under trusted/untrusted keys with every wrap mechanism, against the sticky-protection model plus a byte-taint scan",
+        text="60 roots (create, generate, unwrap, derive x 7 key kinds x 5 flag requests) and all set/copy/concatenate histories to depth 3 (quick) / 4 "
+             "(thorough); a protected key must answer CKR_ATTRIBUTE_SENSITIVE with CK_UNAVAILABLE_INFORMATION and an untouched buffer for every secret attribute "
+             "alone and in mixed templates, must never be wrapped when unextractable or under an untrusted key when WRAP_WITH_TRUSTED, and protections may "
+             "never weaken.",
+        note="<=2 live keys per state; taint scan only for keys whose value the harness knows; single DES unusable on this image."),
 }
 
 NOT_YET = "check under construction in this session; not claimed yet (DESIGN.md Appendix D gives the build order)"
